@@ -94,7 +94,7 @@ func harnesses(r *fw.Run) []fw.HarnessSpec {
 		registry.Entry{Name: "tlb.Maybe[tlb.Any]", Type: reflect.TypeOf(tlb.Maybe[tlb.Any]{})},
 	)
 	var hs []fw.HarnessSpec
-	hs = append(hs, fw.HarnessSpec{Harness: enum.Harness{Name: "json-roundtrip", Bound: r.Pick(2, 3), MaxViolations: 300, Run: func(c *enum.Ctx) {
+	hs = append(hs, fw.HarnessSpec{Harness: enum.Harness{Name: "json-roundtrip", Bound: r.Pick(2, 4), MaxViolations: 300, Run: func(c *enum.Ctx) {
 		if len(types) < 20 {
 			c.Fail("registry", "only %d JSON types found", len(types))
 			return
